@@ -91,7 +91,9 @@ func free(blk []uint16) {
 
 func alloc() []uint16 {
 	if p := blocks.Get(); p != nil {
-		return unsafe.Slice(p.(*uint16), 4096)
+		b := unsafe.Slice(p.(*uint16), 4096)
+		clear(b) // recycled, so it has old contents
+		return b
 	}
 	return make([]uint16, 4096)
 }
